@@ -18,9 +18,11 @@ MANIFEST = dict(
               'regenerated from choreo.py incl. string-pool construction and sort site, binary choreo scenes as layouts with a round-trip '
               'theorem for every layout; quoted-field lexing for the text writers; field splitting of SMD lines; the scene summary) + five '
               'fail-closed ast translators (struct formats with the value each field carries on both sides, sort and version sites, line / '
-              'field templates, operator-stack census, width paths of every binary writer/reader pair) + vm_compute correspondence on six '
-              'models + round-trip / second-generation oracle search on all eight writers',
-    text='Theorems in Props/C20.v (43): cmdseq.parse(cmdseq.write(v)) = v and byte-identical second generation for every configuration '
+              'field templates, operator-stack census with the version-2 test of Sound.export, the VMT quoting decision table and file '
+              'frame, width paths of every binary writer/reader pair; all normalise before matching: struct spellings, helper functions, '
+              'early returns, locals) + vm_compute correspondence on eight models (two exhaustive on a small scope) + round-trip / '
+              'second-generation / observer-effect oracle search on all eight writers',
+    text='Theorems in Props/C20.v (59): cmdseq.parse(cmdseq.write(v)) = v and byte-identical second generation for every configuration '
          'satisfying the obligations regenerated from cmdseq.py; the scenes.image writer over the configuration regenerated from choreo.py '
          'produces the bytes of the container model for both input forms whatever the dict keys are, parses back (header, pool through '
          'the offset table, CRC-sorted table, v2/v3 summaries, blobs; LZMA as a hypothesis pair), its table is sorted by the stored '
@@ -32,16 +34,26 @@ MANIFEST = dict(
          'export_binary and of parse_binary; text writers: a field written escaped between quotes is lexed back whatever it holds, a raw '
          'quoted field when it has no quote / backslash / line break, and the field census of choreo text / soundscripts / VMT regenerated '
          'from the source satisfies the matching boolean; soundscript operator-stack blocks are paired with the attribute of the same '
-         'name on both sides; SMD: conversions never touch and every data line splits at whitespace into exactly its fields; '
+         'name on both sides; soundscript operator stacks behind lazy properties: for every census passing the guard / block booleans '
+         '(discharged for today\'s source) what Sound.export writes does not depend on which lazy properties were read before, the same '
+         'object exports identically twice, the reader gives the value back and the second generation is identical (refuted: a presence '
+         'test `is not None`, a test that forgets a stack, a block guarded by presence); VMT: a name or value vmt._needs_quotes lets through '
+         'is lexed back as that one string, a whole parameter line as name / value / newline, and the whole file of a parameter-only '
+         'material as shader / { / the pairs in order / } for every decision table covering the empty string, leading / and #, and every '
+         'delimiter (table regenerated from vmt.py and tokenizer.py), so the file determines the material; SMD: conversions never touch and every data line splits at whitespace into exactly its fields; '
          'Entry.from_scene: last-speak <= duration, sounds strictly sorted with exactly the used sounds, order independence. '
-         'cmdseq, scenes.image (container, pool+sort), binary scene layout and scene summary models are compared with the implementation '
-         'byte for byte / value for value on every run. All eight writers are searched: generated values inside each format\'s alphabet, '
-         'write -> read -> equal, write again -> identical, plus the sample files under tests/.',
+         'cmdseq, scenes.image (container, pool+sort), binary scene layout, scene summary, soundscript stacks (all 128 small states x '
+         'histories of lazy reads) and VMT quoting (all strings of length <= 2 over 25 characters, parameter lines, whole files) models '
+         'are compared with the implementation byte for byte / value for value on every run. All eight writers are searched: generated values inside each format\'s alphabet, '
+         'write -> read -> equal, write again -> identical, the same with every (lazy) property of the value read first or the value '
+         'written once before (observer effect), plus the sample files under tests/.',
     note='Partial: proof level for cmdseq (complete), the scenes.image container with pool and sort, binary scenes at raw-field level '
          '(the float32 / byte quantisation of values and the Python objects behind the raw fields are outside the model), quoted fields of '
-         'the text writers at tokenizer level (not whole text files), SMD data lines at word level; soundscript / VMT / PCF / SMD / choreo '
-         'text whole-file round trips are decided by search only. Trusted: Coq kernel + vm_compute, translate/c20_formats.py, hand models '
-         'Fmt/CmdSeq.v, Fmt/ScenesImage.v, Fmt/ChoreoBin.v layouts, Fmt/SceneSummary.v (each tied by differential runs; the layouts also by '
+         'the text writers at tokenizer level, soundscript operator stacks at the level of which blocks exist with which children, VMT '
+         'files of parameter-only materials at token level (quoted strings without backslash; blocks / proxies and what Material.parse '
+         'builds from the tokens are searched), SMD data lines at word level; soundscript / PCF / SMD / choreo text whole-file round '
+         'trips are decided by search only. Trusted: Coq kernel + vm_compute, translate/c20_formats.py, hand models '
+         'Fmt/CmdSeq.v, Fmt/ScenesImage.v, Fmt/ChoreoBin.v layouts, Fmt/SceneSummary.v, Fmt/SndStacks.v, Fmt/VmtQuote.v (each tied by differential runs; the layouts also by '
          'kernel-checked path equality with the generated paths), the tokenizer model KV/KvLex.v of C01, CPython struct/lzma/zlib.crc32. '
          'Known finding: text VCD flex-animation blocks are written but the reader raises NotImplementedError.',
 )
@@ -1373,10 +1385,15 @@ def run(ck: Ck) -> None:
                '(harness/c20_util.py documents each alphabet); a case is distinct by its full spec and counted as non-trivial '
                'when the spec is longer than 150 characters (it has at least one record with optional parts); correspondence cases '
                '(cmdseq, scenes.image container, scenes.image pool+sort, binary scene layout, scene summary) are distinct by file bytes / spec '
-               'and non-trivial when they contain a command / two entries / more than 60 bytes / two events')
+               'and non-trivial when they contain a command / two entries / more than 60 bytes / two events; soundscript stack cases are '
+               'the complete small scope (state x history), VMT quoting cases every string of length <= 2 over the delimiter alphabet, '
+               'parameter lines longer than 6 characters and whole files with at least two parameters')
     ck.trusted.append('hand-written models Fmt/CmdSeq.v, Fmt/ScenesImage.v, Fmt/ScenesImageCfg.v (writer over the generated configuration), '
                       'Fmt/ChoreoBin.v (layouts), Fmt/SceneSummary.v: tied by byte-exact / value-exact differential correspondence on every run; '
                       'the layouts additionally by kernel-checked equality of their width paths with the paths regenerated from choreo.py')
+    ck.trusted.append('hand-written models Fmt/SndStacks.v (lazy operator stacks of Sound over the regenerated census) and Fmt/VmtQuote.v '
+                      '(quoting decision, parameter line, file of a parameter-only material over the regenerated table): exhaustive small-scope / '
+                      'generated differential correspondence with Sound.export / parse_one and vmt._needs_quotes / Material.export on every run')
     ck.trusted.append('KV/KvLex.v (tokenizer model of C01) for the quoted-field theorems; the escape table is tied to tokenizer.py by C01')
     ck.trusted.append('CPython struct (float32 conversion of the version tag and of scene times), lzma and zlib.crc32 (outside the models)')
     ck.assumptions += [
@@ -1386,8 +1403,10 @@ def run(ck: Ck) -> None:
         'binary choreo layouts work on raw field values: float32 bit patterns, the byte / 16-bit value already quantised, pool indexes; '
         'the quantisation round(v*255) and the string pool lookups are exercised by the search, not modelled',
         'text writers: the string mode of srctools.tokenizer.Tokenizer is the same code for every configuration with escapes enabled '
-        '(Keyvalues.parse for soundscripts, plain Tokenizer for text choreo scenes); VMT is read with escapes disabled: its census is an '
-        'obligation only, the lexing theorem is not claimed for it',
+        '(Keyvalues.parse for soundscripts, plain Tokenizer for text choreo scenes); VMT is read with escapes disabled: the VMT theorems use the tokenizer '
+        'model in its bare-string mode (no escapes involved) and, for quoted strings, restrict to strings without backslash, where '
+        'reading with and without escapes is the same; the bare-string loop is the same code for every Tokenizer configuration without '
+        'the colon / plus operators (Material.parse uses none)',
         'scene summary: event times are non-negative float32 values (value * 1000.0 is then exact in double arithmetic)',
         'PCF: element UUIDs are fresh random values on every export (Particle has no UUID field); second-generation identity is checked with srctools.dmx.get_uuid replaced by a counter',
         'representable alphabets exclude: NUL / non-ASCII / over-long strings (cmdseq); quotes, comment starters and file extensions in SMD names; '
